@@ -150,6 +150,111 @@ def e_dreq_q_append(f, a):
 def e_msg_clear(f, a): del f.messages[:]
 
 
+# --- scalar fields in non-canonical but accepted spellings (seed c40-6 and its class): values for which a constructor /
+#     from_state normalisation could differ from what the setter stored.  SPELL[name] = (component, target, values)
+from mitmproxy.utils import strutils as _su
+def _ab(v, enc="utf-8"): return _su.always_bytes(v, enc, "surrogateescape") if enc == "utf-8" else _su.always_bytes(v, enc)
+def _auth(v):
+    if isinstance(v, str):
+        try: return v.encode("idna", "strict")
+        except UnicodeError: return v.encode("utf8", "surrogateescape")
+    return v
+SPELL = {
+    # request attributes: (values, what the setter stores)
+    "req_version2": ("request", "req:http_version", ["HTTP/1.1", "http/2.0", b"h2"], _ab),
+    "req_version3": ("request", "req:http_version", ["", "Http/1.0", b"HTTP/3"], _ab),
+    "req_method2": ("request", "req:method", ["get", b"PoSt", "G\udcffT"], _ab),
+    "req_method3": ("request", "req:method", ["", "GET", b"g\xffet"], _ab),
+    "req_scheme2": ("request", "req:scheme", ["http", "HTTPS", b"Http"], _ab),
+    "req_scheme3": ("request", "req:scheme", ["", b"", "h\udcfftp"], _ab),
+    "req_path2": ("request", "req:path", ["/path", "/\u00e4", b"/\xff"], _ab),
+    "req_path3": ("request", "req:path", ["", "/\udcff", b"*"], _ab),
+    "req_authority2": ("request", "req:authority", ["", "Example.COM:80", b"X:1"], _auth),
+    "req_port2": ("request", "req:port", [22, True, 65535], lambda v: v),
+    "req_port3": ("request", "req:port", [0, False, 1], lambda v: v),
+    "req_host2": ("request", "req:host", ["address", "EXAMPLE.com", b"Host.Example"], lambda v: _su.always_str(v, "idna", "strict")),
+    "resp_version2": ("response", "resp:http_version", ["HTTP/1.1", "http/2.0", b"h2"], _ab),
+    "resp_version3": ("response", "resp:http_version", ["", "Http/1.0", b"HTTP/3"], _ab),
+    "resp_status2": ("response", "resp:status_code", [200, True, 999], lambda v: v),
+    "resp_status3": ("response", "resp:status_code", [0, False, 100], lambda v: v),
+    "resp_reason2": ("response", "resp:reason", ["OK", "ok", b"\xe9t"], lambda v: _ab(v, "ISO-8859-1")),
+    "resp_reason3": ("response", "resp:reason", ["", b"", "Not Found"], lambda v: _ab(v, "ISO-8859-1")),
+    # flow-level scalars
+    "marked2": ("marked", "flow:marked", ["", ":X:", "\udcff"], lambda v: v),
+    "comment2": ("comment", "flow:comment", ["", "\udcff\n", "C1"], lambda v: v),
+    "ts_created2": ("timestamp_created", "flow:timestamp_created", [946681200, True, 0], lambda v: v),
+    "err_msg2": ("error", "err:msg", ["", "ERROR", "e\udcff"], lambda v: v),
+    "cc_sni2": ("client_conn", "cc:sni", ["", "ADDRESS", "sn\u00ef"], lambda v: v),
+    "sc_sni2": ("server_conn", "sc:sni", ["", "Address", None], lambda v: v),
+    "sc_addr2": ("server_conn", "sc:address", [("ADDRESS", 22), ("address", True), ("", 0)], lambda v: v),
+    # websocket / tcp / udp / dns
+    "ws_reason2": ("websocket", "ws:close_reason", ["", "Close Reason", "R\udcff"], lambda v: v),
+    "ws_code2": ("websocket", "ws:close_code", [True, 0, 1000], lambda v: v),
+    "msg_edit2": ("messages", "msg:content", [b"", b"\xff", b"HELLO"], lambda v: v),
+    "msg_fc2": ("messages", "msg:from_client", [True, 1, 0], lambda v: v),
+    "dreq_q2": ("request", "dns:qname", ["DNS.Google", "dns.google.", ""], lambda v: v),
+    "dreq_id2": ("request", "dns:id", [True, 0, 65535], lambda v: v),
+    "dresp_id2": ("response", "dnsr:id", [True, 0, 65535], lambda v: v),
+}
+SPELL = {k: (c, t, [eval(repr(x)) if False else x for x in vals], st) for k, (c, t, vals, st) in SPELL.items()}
+
+
+def _spell_apply(name):
+    comp, target, vals, _ = SPELL[name]
+    kind, attr = target.split(":")
+    def fn(f, a):
+        v = vals[a]
+        if kind == "req":
+            if attr == "host" and (f.request.data.authority or "Host" in f.request.headers): return   # host has side effects then
+            setattr(f.request, attr, v)
+        elif kind == "resp":
+            if f.response: setattr(f.response, attr, v)
+        elif kind == "flow": setattr(f, attr, v)
+        elif kind == "err":
+            if f.error: f.error.msg = v
+        elif kind == "cc": setattr(f.client_conn, attr, v)
+        elif kind == "sc": setattr(f.server_conn, attr, v)
+        elif kind == "ws":
+            if f.websocket: setattr(f.websocket, attr, v)
+        elif kind == "msg":
+            if f.messages: setattr(f.messages[0], attr, v)
+        elif kind == "dns":
+            if attr == "qname":
+                if f.request.questions: f.request.questions[0].name = v
+            else: setattr(f.request, attr, v)
+        elif kind == "dnsr":
+            if f.response: setattr(f.response, attr, v)
+    return fn
+
+
+def _spell_typed(name, f, a, ival):
+    comp, target, vals, stored = SPELL[name]
+    kind, attr = target.split(":")
+    v = stored(vals[a])
+    if kind == "req":
+        if attr == "host" and (f.request.data.authority or "Host" in f.request.headers): return None
+        return "req atom %d %d" % (REQ_ATOM[attr], ival(v))
+    if kind == "resp": return "resp atom %d %d" % (RESP_ATOM[attr], ival(v))
+    if kind == "flow": return "atom %d %d" % (COMMON.index(attr), ival(v))
+    if kind == "err": return "errmsg %d" % ival(v)
+    if kind == "cc": return "conn 0 %d %d" % (list(f.client_conn.get_state()).index(attr), ival(v))
+    if kind == "sc": return "conn 1 %d %d" % (list(f.server_conn.get_state()).index(attr), ival(v))
+    if kind == "ws": return "ws atom %d %d" % (["closed_by_client", "close_code", "close_reason", "timestamp_end"].index(attr), ival(v))
+    if kind == "msg":
+        if attr == "content": return "msgs setc 0 " + _hx(v)
+        return "msgs setfc 0 %d" % (1 if v else 0)
+    if kind == "dns":
+        if attr == "qname": return "dreq qname 0 %d" % ival(v)
+        return "dreq atom %d %d" % (DNS_ATOM[attr], ival(v))
+    if kind == "dnsr": return "dresp atom %d %d" % (DNS_ATOM[attr], ival(v))
+    raise KeyError(name)
+
+
+def _spell_table(kinds):
+    return {n: (SPELL[n][0], "mut" if SPELL[n][1].split(":")[0] not in ("flow",) else "reb", _spell_apply(n))
+            for n in SPELL if SPELL[n][1].split(":")[0] in kinds}
+
+
 # name -> (component key, model op, function)
 EDITS_COMMON = {
     "cc_offers": ("client_conn", "mut", e_cc_offers), "cc_ciphers": ("client_conn", "mut", e_cc_ciphers),
@@ -190,6 +295,11 @@ EDITS_DNS = {
     "dreq_replace": ("request", "reb", e_dreq_replace), "dresp_set": ("response", "reb", e_dresp_set),
     "dresp_code": ("response", "mut", e_dresp_code),
 }
+EDITS_COMMON.update(_spell_table(("flow", "err", "cc", "sc")))
+EDITS_HTTP.update(_spell_table(("req", "resp")))
+EDITS_WS.update(_spell_table(("ws",)))
+EDITS_MSG.update(_spell_table(("msg",)))
+EDITS_DNS.update(_spell_table(("dns", "dnsr")))
 EDITS = {"http": {**EDITS_COMMON, **EDITS_HTTP}, "ws": {**EDITS_COMMON, **EDITS_HTTP, **EDITS_WS},
          "tcp": {**EDITS_COMMON, **EDITS_MSG}, "udp": {**EDITS_COMMON, **EDITS_MSG},
          "dns": {**EDITS_COMMON, **EDITS_DNS}}
@@ -261,6 +371,7 @@ def t_comp(key, v, ival, ftype="http"):
 
 def typed_edit(name, f, a, ival):
     """the typed description of edit `name` with argument a (computed BEFORE the edit runs); None = a no-op here"""
+    if name in SPELL: return _spell_typed(name, f, a, ival)
     cc, sc = list(f.client_conn.get_state()), list(f.server_conn.get_state())
     if name == "cc_sni": return "conn 0 %d %d" % (cc.index("sni"), ival(["address", "a.example", None][a]))
     if name == "cc_alpn": return "conn 0 %d %d" % (cc.index("alpn"), ival([b"http/1.1", b"h2", None][a]))
@@ -468,12 +579,21 @@ class Check(PropertyCheck):
                     yield mk(sh, [E, ["backup", 0, 0], I, ["revert", 0, 0]])
                     yield mk(sh, [E, ["copy", 0, 0], I2, I, [ip_[0], 1, ip_[1]]])
                     yield mk(sh, [E, ["backup", 0, 0], ["copy", 0, 0], I, ["revert", 0, 0], I2, ["revert", 1, 0], ["copy", 1, 0], [ip_[0], 2, ip_[1]]])
+        # scalar fields in non-canonical but accepted spellings: constructor (revert / copy) vs setter normalisation
+        for sh in shapes:
+            for n in sorted(SPELL):
+                if n not in EDITS[sh[0]]: continue
+                if sh[1] == 0 and SPELL[n][1].split(":")[0] in ("resp", "dnsr"): continue
+                if sh[2] == 0 and SPELL[n][1].split(":")[0] == "err": continue
+                for a in range(3):
+                    yield mk(sh, [[n, 0, a], ["backup", 0, 0], ["revert", 0, 0], ["copy", 0, 0], [n, 1, (a + 1) % 3], ["backup", 1, 0], [n, 1, a], ["revert", 1, 0]])
         for sh in shapes:
             yield mk(sh, [["backup", 0, 0]])
             yield mk(sh, [["copy", 0, 0], ["backup", 1, 0], ["revert", 1, 0]])
             names = sorted(EDITS[sh[0]])
             for n in names:
                 for a in range(3):
+                    if tier == "quick" and not rng.chance(0.3): continue      # quick: a seed-dependent sample of this block
                     yield mk(sh, [["backup", 0, 0], [n, 0, a], ["revert", 0, 0]])
                     yield mk(sh, [["backup", 0, 0], [n, 0, a], [n, 0, 0], [n, 0, a], ["backup", 0, 0], ["revert", 0, 0], ["revert", 0, 0]])
                     yield mk(sh, [[n, 0, a], ["copy", 0, 0], [n, 0, (a + 1) % 3], [n, 1, (a + 2) % 3], ["backup", 1, 0], [n, 1, a], ["revert", 1, 0]])
